@@ -5,7 +5,7 @@
 // @module file=cast6/src/lib.rs
 // @config name=zeroize features=zeroize
 use super::*;
-use crate::__vp_cipher::{any_cast6, spec_forward_octave};
+use crate::__vp_cipher::{any_cast6, st_w_real, uf_w};
 use cipher::Array;
 include!("@VERIF@/contracts/_common/common.rs");
 include!("@VERIF@/contracts/serpent/shared_api.inc");
@@ -14,10 +14,11 @@ uf_block_fns!(Cast6);
 fn raw(t: &Cast6) -> [u8; core::mem::size_of::<Cast6>()] { unsafe { core::ptr::read(t as *const Cast6 as *const _) } }
 
 // ---------------------------------------------------------------- C11
-// new_from_slice and key_schedule are real; forward_octave is replaced by its contract (cipher.rs c_forward_octave)
+// new_from_slice and key_schedule are real; forward_octave is an uninterpreted function (pure and panic-free for
+// 8-element slices by cipher.rs c_forward_octave; the stub still performs its reads of the Tm / Tr slices)
 // @ob name=k_len props=C11,C20 kind=bounded bound="slice length <= 300" fn=cast6::Cast6::new_from_slice uses=c_forward_octave timeout=900
 #[kani::proof]
-#[kani::stub(forward_octave, spec_forward_octave)]
+#[kani::stub(forward_octave, st_w_real)]
 #[kani::unwind(34)]
 fn k_len() {
     let buf: [u8; 301] = kani::any();
@@ -38,11 +39,12 @@ fn k_len() {
 // A fixed-size (32-byte) key and the same bytes as a slice give the same cipher
 // @ob name=k_slice_same props=C11 fn=cast6::Cast6::new,cast6::Cast6::new_from_slice uses=c_forward_octave timeout=900
 #[kani::proof]
-#[kani::stub(forward_octave, spec_forward_octave)]
+#[kani::stub(forward_octave, st_w_real)]
 #[kani::unwind(600)]
 fn k_slice_same() {
     let k: [u8; 32] = kani::any();
     let a = <Cast6 as KeyInit>::new(&Array(k));
+    uf_w::replay_same_order();
     let b = <Cast6 as KeyInit>::new_from_slice(&k[..]).unwrap();
     assert!(same_bytes!(Cast6, &a, &raw(&b)));
 }
@@ -50,7 +52,7 @@ fn k_slice_same() {
 // A short key (SYMBOLIC length in {16,20,24,28}) and its explicitly zero-padded 32-byte form give the same cipher
 // @ob name=k_padded_same props=C11 fn=cast6::Cast6::new_from_slice uses=c_forward_octave timeout=900
 #[kani::proof]
-#[kani::stub(forward_octave, spec_forward_octave)]
+#[kani::stub(forward_octave, st_w_real)]
 #[kani::unwind(600)]
 fn k_padded_same() {
     let buf: [u8; 32] = kani::any();
@@ -65,6 +67,7 @@ fn k_padded_same() {
         i += 1;
     }
     let a = <Cast6 as KeyInit>::new_from_slice(&buf[..n]).unwrap();
+    uf_w::replay_same_order();
     let b = <Cast6 as KeyInit>::new(&Array(full));
     assert!(same_bytes!(Cast6, &a, &raw(&b)));
 }
@@ -72,13 +75,16 @@ fn k_padded_same() {
 // ---------------------------------------------------------------- C13
 // @ob name=w_weak props=C13 fn=cast6::Cast6::weak_key_test,cast6::Cast6::new_checked uses=c_forward_octave timeout=900
 #[kani::proof]
-#[kani::stub(forward_octave, spec_forward_octave)]
+#[kani::stub(forward_octave, st_w_real)]
 #[kani::unwind(600)]
 fn w_weak() {
     let k: [u8; 32] = kani::any();
     assert!(<Cast6 as KeyInit>::weak_key_test(&Array(k)).is_ok());
     match <Cast6 as KeyInit>::new_checked(&Array(k)) {
-        Ok(c) => assert!(same_bytes!(Cast6, &c, &raw(&<Cast6 as KeyInit>::new(&Array(k))))),
+        Ok(c) => {
+            uf_w::replay_same_order();
+            assert!(same_bytes!(Cast6, &c, &raw(&<Cast6 as KeyInit>::new(&Array(k)))))
+        }
         Err(_) => assert!(false),
     }
 }
@@ -92,8 +98,8 @@ clone_same!(k_clone, Cast6, any_cast6());
 names!(n_names, Cast6, any_cast6(), "Cast6");
 
 // ---------------------------------------------------------------- C16
-// @ob name=z_drop props=C16 cfg=zeroize fn=cast6::Cast6::drop timeout=300
-zero_on_drop!(z_drop, Cast6, any_cast6());
+// @ob name=z_drop_own props=C16 cfg=zeroize fn=cast6::Cast6::drop timeout=300
+zero_on_drop!(z_drop_own, Cast6, any_cast6());
 // @ob name=z_drop_clone props=C16 cfg=zeroize fn=cast6::Cast6::drop,cast6::Cast6::clone timeout=300
 zero_on_drop!(z_drop_clone, Cast6, any_cast6().clone());
 
